@@ -1,6 +1,6 @@
 (* Direct consequences of the definition of one step: gates and refusals.
    (C01 pre-hello, C06 resume, C08 gates and decision tables, C19 gate) *)
-From Coq Require Import List NArith Bool Lia.
+From Coq Require Import List NArith ZArith Bool Lia.
 From Verif Require Import model.Hub proofs.Hub_basics.
 Import ListNotations.
 Open Scope N_scope.
@@ -168,9 +168,35 @@ Qed.
    params the configured backend accepted, an internal token that matches (tok = 0 stands for
    "token = HMAC(secret, random), random long enough", established by the harness with the real
    HMAC), or the private resume id of a live session *)
+(* what "a protocol 2.0 token signed with a key published by that configured backend" means for the
+   token the driver built: an asymmetric method the parser is told to accept, of the family of the
+   key backend b publishes; the signature made with the private half of exactly that key; issued
+   (iat present, not in the future beyond the leeway), not before its nbf, not expired *)
+Definition v2_verifies (b : N) (t : v2tok) : Prop :=
+  v2_alg_valid t.(t_alg) = true /\ v2_alg_family t.(t_alg) = v2_key_family b /\ v2_alg_family t.(t_alg) < 3 /\
+  t.(t_signer) = b + 1 /\
+  (exists (i e : Z), t.(t_iat) = Some i /\ t.(t_exp) = Some e /\ (i <= v2_leeway)%Z /\ (i <= e)%Z /\ (0 - v2_leeway < e)%Z) /\
+  (forall n : Z, t.(t_nbf) = Some n -> (n <= v2_leeway)%Z).
+
+Lemma v2_check_accepts nb b t : v2_check nb b t = 0 -> (b <? nb) = true /\ v2_verifies b t.
+Proof.
+  unfold v2_check, v2_verifies.
+  destruct (nb <=? b) eqn:Hb; [discriminate|].
+  destruct (v2_alg_valid (t_alg t)) eqn:Hv; [|discriminate]. cbn [negb].
+  destruct (3 <=? v2_alg_family (t_alg t)) eqn:Hf; [discriminate|].
+  destruct (N.eqb_spec (v2_alg_family (t_alg t)) (v2_key_family b)) as [Hk|]; [|discriminate]. cbn [negb].
+  destruct (N.eqb_spec (t_signer t) (b + 1)) as [Hsg|]; [|discriminate]. cbn [negb].
+  destruct (t_nbf t) as [n|] eqn:Hn; destruct (t_iat t) as [i|] eqn:Hi; destruct (t_exp t) as [e|] eqn:He;
+    repeat match goal with |- context [if ?c then _ else _] => destruct c eqn:? end; cbn [orb negb] in *; try discriminate;
+    intros _; (split; [apply N.leb_gt in Hb; now apply N.ltb_lt|]);
+    (split; [reflexivity|]); (split; [exact Hk|]); (split; [apply N.leb_gt in Hf; exact Hf|]); (split; [exact Hsg|]);
+    (split; [exists i, e; repeat split; lia | intros n0 Hn0; try discriminate; try (injection Hn0 as <-); lia]).
+Qed.
+
 Definition credentials_verify (h : hub) (hl : hello) : Prop :=
   match hl with
   | HV1 b u reject => (b <? h.(h_nb)) = true /\ reject = false
+  | HV2 b u t => (b <? h.(h_nb)) = true /\ v2_verifies b t
   | HInternal b tok _ _ => (b <? h.(h_nb)) = true /\ tok = 0
   | HResume (IdPriv n) => exists s, get_sess h n = Some s /\ is_virtual s.(s_kind) = false
   | HResume _ => False
@@ -191,12 +217,15 @@ Proof.
   intros Hc Hs. cbn [step]. rewrite Hc, Hs.
   set (h' := set_conns h (aset (h_conns h) c (mkconn (c_addr cn) None (match hl with HResume _ => c_expect cn | _ => false end)))).
   assert (Hnb : h_nb h' = h_nb h) by reflexivity.
-  unfold do_hello. destruct hl as [b u0 rej|b tok f d|i]; cbn [credentials_verify].
+  unfold do_hello. destruct hl as [b u0 rej|b u0 t|b tok f d|i]; cbn [credentials_verify].
   - destruct (h_nb h' <=? b) eqn:Hb; cbn [snd].
     { intros [H|[]]. discriminate. }
     destruct rej; cbn [snd].
     { intros [H|[H|[]]]; discriminate. }
     intros _. split; [|reflexivity]. rewrite Hnb in Hb. apply N.leb_gt in Hb. now apply N.ltb_lt.
+  - destruct (v2_check (h_nb h') b t) eqn:Hv.
+    + intros _. rewrite Hnb in Hv. now apply v2_check_accepts.
+    + cbn [snd]. intros [H|[]]. discriminate.
   - destruct (throttled h' (c_addr cn) ACT_INTERNAL); cbn [snd]; [intros [H|[]]; discriminate|].
     destruct (N.eqb_spec tok 0) as [->|]; cbn [negb snd]; [|intros [H|[]]; discriminate].
     destruct (h_nb h' <=? b) eqn:Hb; cbn [snd]; [intros [H|[]]; discriminate|].
